@@ -28,11 +28,31 @@ var (
 	hists  [][]int
 	names  []string
 	worlds []*chainlab.World // world per history
+	kinds  []int             // process-wide parameters per history (see activate)
+	curKind = -1
 )
 
+// activate switches the process-wide parameters: 0 = 4 federation validators, the node's key is outside the validator
+// set; 1 = the same with the node signing as validator 3; 2 = ONE validator, the node itself (its own vote justifies).
+func activate(k int) *labnet.Net {
+	var net *labnet.Net
+	switch k {
+	case 0:
+		net = labnet.Setup(2, 2, 4)
+		net.SetLocalKey(labnet.OutsiderKey())
+	case 1:
+		net = labnet.Setup(2, 2, 4)
+		net.SetLocalKey(net.Keys[3])
+	case 2:
+		net = labnet.Setup(2, 2, 1)
+		net.SetLocalKey(net.Keys[0])
+	}
+	curKind = k
+	return net
+}
+
 func world(thorough bool) {
-	net := labnet.Setup(2, 2, 4)
-	net.SetLocalKey(labnet.OutsiderKey())
+	net := activate(0)
 	w := chainlab.NewWorld(net, net.Gen, nil)
 	a1 := w.AddBlock(0, "a1", labnet.BlockOpt{})
 	a2 := w.AddBlock(a1, "a2", labnet.BlockOpt{})
@@ -106,6 +126,50 @@ func world(thorough bool) {
 	}
 	W = w
 	txWorld(net, thorough)
+	for len(kinds) < len(hists) {
+		kinds = append(kinds, 0)
+	}
+	validatorWorlds(thorough)
+	activate(0)
+}
+
+// validatorWorlds: the node under test is a validator and signs its own votes while it processes epoch blocks.
+func validatorWorlds(thorough bool) {
+	for _, kind := range []int{1, 2} {
+		net := activate(kind)
+		w := chainlab.NewWorld(net, net.Gen, nil)
+		a1 := w.AddBlock(0, "a1", labnet.BlockOpt{})
+		a2 := w.AddBlock(a1, "a2", labnet.BlockOpt{})
+		a3 := w.AddBlock(a2, "a3", labnet.BlockOpt{})
+		a4 := w.AddBlock(a3, "a4", labnet.BlockOpt{})
+		a5 := w.AddBlock(a4, "a5", labnet.BlockOpt{})
+		b1 := w.AddBlock(0, "b1", labnet.BlockOpt{Tag: 1})
+		b2 := w.AddBlock(b1, "b2", labnet.BlockOpt{Tag: 1})
+		b3 := w.AddBlock(b2, "b3", labnet.BlockOpt{Tag: 1})
+		w.AddBlockEvents()
+		B := map[int]int{}
+		for i, e := range w.Events {
+			B[e.Block] = i
+		}
+		V := func(v, s, t int) int { w.AddVote(v, s, t); return len(w.Events) - 1 }
+		add := func(n string, h ...int) {
+			hists = append(hists, h)
+			names = append(names, n)
+			worlds = append(worlds, w)
+			kinds = append(kinds, kind)
+		}
+		if kind == 1 {
+			add("validator-node-own-vote-completes-majority", B[a1], B[a2], V(0, 0, a2), V(1, 0, a2), B[a3], B[a4], V(0, a2, a4), V(1, a2, a4), B[a5])
+			add("validator-node-others-first", V(0, 0, a2), V(1, 0, a2), B[a1], B[a2], B[a3], B[a4], B[a5])
+			add("validator-node-reorg-by-height", B[a1], B[a2], B[b1], B[b2], B[b3])
+		} else {
+			add("sole-validator-linear", B[a1], B[a2], B[a3], B[a4], B[a5])
+			add("sole-validator-reorg-by-height", B[a1], B[a2], B[b1], B[b2], B[b3])
+			if thorough {
+				add("sole-validator-orphans", B[a2], B[a3], B[a1], B[a4], B[a5])
+			}
+		}
+	}
 }
 
 // txWorld: histories with transactions on top of the prelude (utxo and contract writes in the chain-status batch,
@@ -186,6 +250,9 @@ func runCase(h []int, _ json.RawMessage) (out xplore.Out) {
 	hi := h[0]
 	hist := hists[hi]
 	W = worlds[hi]
+	if kinds[hi] != curKind {
+		activate(kinds[hi])
+	}
 	viol := func(key, what string) {
 		out.Viols = append(out.Viols, xplore.Viol{Key: key, What: fmt.Sprintf("history %s %v: %s", names[hi], W.Describe(hist), what)})
 	}
@@ -373,6 +440,10 @@ func kindOf(hist []int, k int) string {
 		return "vote"
 	case chainlab.EvBlockSL:
 		return "block-with-links"
+	}
+	if curKind == 2 && W.Blocks[W.Events[hist[k-1]].Block].Height%W.Net.E == 0 {
+		// the node is the only validator: while it processes this block its own vote justifies the block's checkpoint
+		return "block-justified-by-own-vote"
 	}
 	return "block"
 }
